@@ -243,4 +243,39 @@ PROPS = {
              level_note="Trusted: Lean kernel; the scripted validator decides by password content; custom AuthStrategy implementations other "
                         "than ClearTextPassword are out of scope.",
              technique="Lean 4 proof (exhaustive case analysis of the authentication phase) + differential correspondence"),
+    "C12": P("Pw.Props.C12",
+             ["Pw.Props.C12.C12_client_params", "Pw.Props.C12.C12_missing_terminator", "Pw.Props.C12.C12_param_values",
+              "Pw.Props.C12.C12_params_present", "Pw.Props.C12.C12_cancel", "Pw.Props.C12.C12_cancel_after_N"],
+             [("startup", 3000, 200000), ("multi", 400, 20000)], ["Startup", "Consts", "Shared"],
+             design_ref="§7 C12",
+             level_text="Lean theorems: for every list of startup key/value pairs (duplicates, empty values) the handlers' client "
+                        "parameters are exactly the pairs sent, last value winning, bytes after the terminator ignored; a packet without "
+                        "terminator reaches no callback; every ParameterStatus carries the prescribed value (UTF8 for both encodings "
+                        "whatever is configured, off, the connecting user, the configured version) or comes unchanged from the configured "
+                        "map, and the fixed ones are always present; a CancelRequest as first packet or after a refused SSL negotiation "
+                        "closes the connection with no reply (other than 'N') and no callback. The shared configured map is an INPUT of "
+                        "the model (never part of its result): non-mutation is tied to the code by the pinned writeParameters body "
+                        "(maps.Clone before the stores), the pinned list of Server-field writes, and checked at run time (user's map "
+                        "compared before/after). Tie: differential campaign (startup shapes, cancel stages, configured maps/versions) "
+                        "with the oracle reading the parameters inside real callbacks and on the wire, plus a multi-connection campaign "
+                        "(2-4 users on one server, phased and concurrent) checking that no connection sees another one's values.",
+             level_note="Trusted: Lean kernel; Go map semantics (iteration order canonicalised by sorting ParameterStatus runs); harness.",
+             technique="Lean 4 proof (induction on the pair list, membership reasoning on the parameter map) + differential correspondence"),
+    "C19": P("Pw.Props.C19",
+             ["Pw.Props.C19.C19_chain", "Pw.Props.C19.C19_failure_ends", "Pw.Props.C19.C19_terminate", "Pw.Props.C19.mwEvents_succ"],
+             [("lifecycle", 3000, 150000)], ["Startup"],
+             design_ref="§7 C19",
+             level_text="Lean theorems: for ANY number of registered middlewares they run once each, in registration order, up to and "
+                        "including the first failing one, write nothing, and the chain succeeds exactly when none fails (induction on the "
+                        "chain); a middleware failure ends the connection with no ReadyForQuery and no parser/statement callback whatever "
+                        "is pipelined; Terminate runs the hook exactly once (when configured), closes the connection and stops the command "
+                        "loop. Context PROPAGATION (each middleware receiving its predecessor's context, callbacks receiving the resulting "
+                        "context with client/server parameters, remote address, type map; per-command cancellation) is a property of Go's "
+                        "context values that the model does not represent: it is decided by the campaign oracle, which inspects the "
+                        "context inside the real callbacks (markers of every middleware, parameter maps, address, type map, alive during "
+                        "the call, cancelled after the command). Tie: pinned serve() phase order; differential campaign over chains of "
+                        "0..6 middlewares with a failure at any position, with/without terminate hook, command histories.",
+             level_note="partial: context propagation and cancellation are checked on generated cases, not proved (runtime behaviour of "
+                        "context.Context). Trusted: Lean kernel; harness.",
+             technique="Lean 4 proof (induction on the middleware chain) + differential correspondence with context-inspecting oracle"),
 }
